@@ -31,6 +31,17 @@ enum Meth {
     Get { id: u32 },
     #[serde(rename = "a.Put")]
     Put { id: u32, data: String },
+    /// a call that can not be encoded: every way of queueing it is refused
+    #[serde(rename = "a.Bad")]
+    Bad { x: Refuse },
+}
+
+#[derive(Debug)]
+struct Refuse;
+impl Serialize for Refuse {
+    fn serialize<S: serde::Serializer>(&self, _: S) -> Result<S::Ok, S::Error> {
+        Err(serde::ser::Error::custom("this value refuses to be encoded"))
+    }
 }
 
 #[derive(Debug, Deserialize)]
@@ -797,6 +808,15 @@ fn large_chain_case(totals: &[usize], idx: u64, sink: &mut xplore::Sink<'_>) {
 /// One write with all of `calls`, then exactly the owed replies, then the end, the next exchange's
 /// frame untouched.
 fn check_chain_of(calls: Vec<Call<Meth>>, case: &dyn Fn() -> Value, sink: &mut xplore::Sink<'_>, idx: u64) {
+    check_chain_after(&[], calls, case, sink, idx)
+}
+
+const REFUSED_WAYS: [&str; 5] = ["enqueue_call", "chain_call", "send_call", "call_method", "a chain whose second call is refused"];
+
+/// The same, on a connection that first refused calls it could not encode (`refused`: for each the way
+/// it was offered, and whether it was flagged oneway): nothing of them may be left behind - not in the
+/// bytes of the chain's one write and not in the number of replies the chain thinks it is owed.
+fn check_chain_after(refused: &[(usize, bool)], calls: Vec<Call<Meth>>, case: &dyn Fn() -> Value, sink: &mut xplore::Sink<'_>, idx: u64) {
     let mut exp = Vec::new();
     for c in &calls {
         exp.extend_from_slice(&serde_json::to_vec(c).unwrap());
@@ -827,6 +847,27 @@ fn check_chain_of(calls: Vec<Call<Meth>>, case: &dyn Fn() -> Value, sink: &mut x
         wire.arrive(&[0]);
     }
     let mut conn: Conn = wire.connection();
+    for (way, oneway) in refused {
+        let bad = Call::new(Meth::Bad { x: Refuse }).set_oneway(*oneway);
+        let refused_ok = match way {
+            0 => conn.enqueue_call(&bad).is_err(),
+            1 => conn.chain_call::<Meth, R<'_>, E<'_>>(&bad).is_err(),
+            2 => complete(conn.send_call(&bad)).is_err(),
+            3 => complete(conn.call_method::<Meth, R<'_>, E<'_>>(&bad)).is_err(),
+            _ => match conn.chain_call::<Meth, R<'_>, E<'_>>(&Call::new(Meth::Get { id: 77 }).set_oneway(true)) {
+                // (the first call of this abandoned chain is oneway: whether or not its bytes go out
+                // later, nobody owes a reply for it; its bytes are not judged below)
+                Ok(chain) => chain.append(&bad).is_err(),
+                Err(_) => false,
+            },
+        };
+        if !refused_ok {
+            sink.fail("chain:unencodable-call-accepted", format!("{} took a call whose parameters can not be encoded", REFUSED_WAYS[*way]), case());
+            return;
+        }
+        sink.goal("chain-after-a-refused-call");
+    }
+    let abandoned_first = refused.iter().any(|(w, _)| *w == 4);
     let r: Result<(), (String, String)> = (|| {
         let mut chain = conn.chain_call::<Meth, R<'_>, E<'_>>(&calls[0]).map_err(|e| ("chain:call-refused".to_string(), format!("{e:?}")))?;
         for c in &calls[1..] {
@@ -838,7 +879,10 @@ fn check_chain_of(calls: Vec<Call<Meth>>, case: &dyn Fn() -> Value, sink: &mut x
             if w.writes.len() != 1 {
                 return Err(("chain:calls-not-in-one-write".into(), format!("{} calls ({} bytes) reached the transport in {} writes of {:?} bytes", calls.len(), exp.len(), w.writes.len(), w.writes.iter().map(|x| x.len()).collect::<Vec<_>>())));
             }
-            if w.writes[0] != exp {
+            // (calls that were accepted into an abandoned chain may or may not go out with this
+            // write: only what follows them is compared then)
+            let tail_ok = abandoned_first && w.writes[0].ends_with(&exp);
+            if w.writes[0] != exp && !tail_ok {
                 return Err(("chain:wrong-bytes-written".into(), format!("{} calls: the one write has {} bytes, expected {}, first difference at {:?}", calls.len(), w.writes[0].len(), exp.len(), w.writes[0].iter().zip(exp.iter()).position(|(a, b)| a != b))));
             }
         }
@@ -1112,9 +1156,37 @@ fn padded_chain_case(idx: u64, sink: &mut xplore::Sink<'_>) {
     check_chain_of(calls, &case, sink, idx);
 }
 
+/// Phase chains-after-refused-calls: 1 or 2 calls that can not be encoded, each offered in one of
+/// five ways and flagged oneway or not, then a chain of 1..3 calls of rotating kinds.
+const REFUSED_CASES: u64 = (10 + 100) * 6;
+
+fn refused_chain_case(idx: u64, sink: &mut xplore::Sink<'_>) {
+    let shape = (idx % 6) as usize;
+    let r = idx / 6;
+    let one = |k: u64| ((k % 5) as usize, k / 5 % 2 == 1);
+    let refused: Vec<(usize, bool)> = if r < 10 { vec![one(r)] } else { vec![one((r - 10) % 10), one((r - 10) / 10)] };
+    let kinds: &[u8] = [&b"p"[..], b"m", b"pp", b"op", b"pmo", b"mpp"][shape];
+    let calls: Vec<Call<Meth>> = kinds
+        .iter()
+        .enumerate()
+        .map(|(i, k)| {
+            let c = Call::new(Meth::Get { id: i as u32 + 1 });
+            match k {
+                b'o' => c.set_oneway(true),
+                b'm' => c.set_more(true),
+                _ => c,
+            }
+        })
+        .collect();
+    let shown: Vec<String> = refused.iter().map(|(w, o)| format!("{}{}", REFUSED_WAYS[*w], if *o { " (oneway)" } else { "" })).collect();
+    let kinds_s = String::from_utf8_lossy(kinds).to_string();
+    let case = move || json!({"group": "refused-then-chain", "index": idx, "refused": shown, "chain": kinds_s});
+    check_chain_after(&refused, calls, &case, sink, idx);
+}
+
 pub fn run_c06(tier: Tier) -> i32 {
     let mut rep = Report::new("C06", tier.name());
-    rep.rule = "DFS by re-execution over: chain in {plain, oneway, more, oneway+more}^1..N x per non-oneway call a reply script (success | declared error | a final reply that does not decode - wrong-shaped parameters or an error nobody declares; for `more` 0..2 continuing replies before that final reply) x trailing unrelated frame {absent, present} x arrival chunking of the reply bytes (cut candidates: before the first byte, after the first byte / in the middle / before the NUL of every frame, between frames; phase `inter` takes every subset of the inter-frame cuts, the other cuts and spurious Pending answers cost one deviation each). Outcomes are distinct (item sequence, number of transport polls). Phase generated-chain-methods: chains started with each of the four `chain_<m>` methods the proxy macro generates for a trait with plain and more methods with and without arguments (oneway methods get no chain forms), extended with 0..2 generated extension methods, 0..2 continuing replies to a `more` start, replies arriving together or one by one. Phase chains-of-every-size: a chain of five calls (plain, plain with a payload of p bytes, oneway, more, plain) for every p in 0..=600 (thorough 1500), so that some call ends exactly at the end of the send buffer. Phase large-chains: chains adding up to 16 KiB .. 200 KB (thorough: 3 MB), built in three ways (one large call among small ones, hundreds of 1000-byte calls, a large call first), kinds rotating plain / oneway / more: one write, the owed replies, the next exchange untouched".into();
+    rep.rule = "DFS by re-execution over: chain in {plain, oneway, more, oneway+more}^1..N x per non-oneway call a reply script (success | declared error | a final reply that does not decode - wrong-shaped parameters or an error nobody declares; for `more` 0..2 continuing replies before that final reply) x trailing unrelated frame {absent, present} x arrival chunking of the reply bytes (cut candidates: before the first byte, after the first byte / in the middle / before the NUL of every frame, between frames; phase `inter` takes every subset of the inter-frame cuts, the other cuts and spurious Pending answers cost one deviation each). Outcomes are distinct (item sequence, number of transport polls). Phase generated-chain-methods: chains started with each of the four `chain_<m>` methods the proxy macro generates for a trait with plain and more methods with and without arguments (oneway methods get no chain forms), extended with 0..2 generated extension methods, 0..2 continuing replies to a `more` start, replies arriving together or one by one. Phase chains-of-every-size: a chain of five calls (plain, plain with a payload of p bytes, oneway, more, plain) for every p in 0..=600 (thorough 1500), so that some call ends exactly at the end of the send buffer. Phase chains-after-refused-calls: a connection that first refused 1 or 2 calls it could not encode (a parameter whose Serialize impl fails), each offered through enqueue_call, chain_call, send_call, call_method or as the second call of a chain that is then abandoned, flagged oneway or not, and then sends a chain of 1..3 calls: one write with exactly the chain's bytes, exactly the owed replies, the next exchange untouched. Phase large-chains: chains adding up to 16 KiB .. 200 KB (thorough: 3 MB), built in three ways (one large call among small ones, hundreds of 1000-byte calls, a large call first), kinds rotating plain / oneway / more: one write, the owed replies, the next exchange untouched".into();
     rep.assumptions = vec!["server reply scripts conform to the protocol (one reply per call; continues only on replies to `more` calls)".into(), "the stream is polled only when its waker fired or new bytes were delivered".into(), "after a reply that does not decode the stream may end (what remains of the exchange is then not judged) or carry on; in both cases it must not take or wait for more frames than the chain is owed".into()];
     for g in [
         "chain-of-only-oneway-calls",
@@ -1155,6 +1227,8 @@ pub fn run_c06(tier: Tier) -> i32 {
     rep.add(xplore::sweep("generated-chain-methods", PROXY_CHAIN_CASES, &Config { max_wall: wall, ..Default::default() }, proxy_chain_case));
     rep.require_goal("chain-with-calls-of-every-size");
     rep.add(xplore::sweep("chains-of-every-size", tier.pick(601, 1501), &Config { max_wall: wall, ..Default::default() }, padded_chain_case));
+    rep.require_goal("chain-after-a-refused-call");
+    rep.add(xplore::sweep("chains-after-refused-calls", REFUSED_CASES, &Config { max_wall: wall, ..Default::default() }, refused_chain_case));
     rep.require_goal("chain-larger-than-64KiB");
     let totals = large_chain_totals(tier);
     let cfg = Config { max_wall: wall, ..Default::default() };
@@ -1200,6 +1274,14 @@ pub fn replay(v: &Value) -> Replayed {
     if v["case"]["group"] == "padded-chain" {
         let idx = v["case"]["index"].as_u64().unwrap_or(0);
         let st = xplore::sweep_one("chains-of-every-size", idx, &Config { threads: 1, ..Default::default() }, padded_chain_case);
+        return match st.violations.into_iter().next() {
+            Some((class, rec)) => Replayed::Fail { trace: vec![format!("case {}", v["case"])], class, detail: rec.detail },
+            None => Replayed::Pass(vec![format!("case {}", v["case"])]),
+        };
+    }
+    if v["case"]["group"] == "refused-then-chain" {
+        let idx = v["case"]["index"].as_u64().unwrap_or(0);
+        let st = xplore::sweep_one("chains-after-refused-calls", idx, &Config { threads: 1, ..Default::default() }, refused_chain_case);
         return match st.violations.into_iter().next() {
             Some((class, rec)) => Replayed::Fail { trace: vec![format!("case {}", v["case"])], class, detail: rec.detail },
             None => Replayed::Pass(vec![format!("case {}", v["case"])]),
